@@ -242,7 +242,9 @@ def _params(it, fn_node, fobj):
             continue  # parameters with a default in the signature (k=2, eps) keep it
         d = kwattr.get(pn, 0)
         if isinstance(d, (list, tuple)):
-            kw[pn] = [sym("par_%s%d" % (pn, k), True) for k in range(len(d))]
+            # series models (ogden, storakers) are evaluated with two terms: the attached defaults have one, which hides any mix-up between terms
+            nterms = max(2, len(d)) if fn_node.name in ("ogden", "storakers") else len(d)
+            kw[pn] = [sym("par_%s%d" % (pn, k), True) for k in range(nterms)]
         else:
             kw[pn] = sym("par_" + pn, True)
     return kw, names
